@@ -296,6 +296,22 @@ def judge(case, results):
             v.bad(rule, disc, detail)
         else:
             v.count("other_property_divergence:" + prop + ":" + rule)
+    # a drop-in is a copy of the ruleset it targets: on a ruleset with a ruleset-level cgroup it, too, runs once per matching
+    # cgroup (its plugins see that cgroup), never as one unscoped ruleset
+    scoped = {r["name"] for r in scn["config"]["rulesets"] if r.get("cgroup")}
+    utgt = {o["_u"]: o["_target"] for t in scn["ticks"] for o in t.get("dropins", []) if o.get("_u")}
+    if scoped and utgt:
+        _, tks = engine.split_ticks(res.events)
+        for ti, evs in enumerate(tks):
+            for e in evs:
+                if e.get("ev") == "plugin" and e["m"] == "run" and e["id"].startswith("x"):
+                    u = e["id"].rsplit(".", 1)[0]
+                    if utgt.get(u) in scoped:
+                        v.count("dropin_runs_on_scoped_ruleset")
+                        if e.get("rcg") is None or (ti < len(live[utgt[u]]) and e["rcg"] not in live[utgt[u]][ti]):
+                            v.bad("drop-in-not-scoped", "", "tick %d: plugin %s of a drop-in for ruleset %s (cgroup %s) ran for %r; matching cgroups %s" % (
+                                ti, e["id"], utgt[u], [r["cgroup"] for r in scn["config"]["rulesets"] if r["name"] == utgt[u]][0], e.get("rcg"), sorted(live[utgt[u]][ti])))
+                            break
     for k, n in st.items():
         v.count(k, n)
     v.nontrivial = st["inst_dropped"] > 0 and st["inst_created"] > 1 and st["chain_starts"] > 0
